@@ -142,15 +142,26 @@ def rowBits : Nat → List (List Piece) → R (List Bytes)
 def rowSquares (p : Pos) (y : Nat) : R (List (List Piece)) :=
   (List.range p.size).mapM (fun x => atGo p (x + y * p.size))
 
-def tpsRow (p : Pos) (y : Nat) : R Bytes := do
-  let sqs ← rowSquares p y
-  let bits ← rowBits 0 sqs
-  pure (join cComma bits)
+/-- the text of one row given its squares: the cells joined by `,` -/
+def tpsRowText (sqs : List (List Piece)) : R Bytes :=
+  match rowBits 0 sqs with
+  | .error e => .error e
+  | .ok bits => .ok (join cComma bits)
+
+def tpsRow (p : Pos) (y : Nat) : R Bytes :=
+  match rowSquares p y with
+  | .error e => .error e
+  | .ok sqs => tpsRowText sqs
+
+/-- the last line of `FormatTPS`: rows (top row first) joined by `/`, side to move, move number -/
+def tpsText (rows : List Bytes) (move : Int) : Bytes :=
+  let toMove := if move % 2 == 0 then c1 else c2
+  join cSlash rows ++ cSpace :: toMove :: cSpace :: itoa (move.tdiv 2 + 1)
 
 /-- `FormatTPS` -/
-def formatTPS (p : Pos) : R Bytes := do
-  let rows ← ((List.range p.size).reverse).mapM (tpsRow p)
-  let toMove := if p.toMove == .white then c1 else c2
-  pure (join cSlash rows ++ cSpace :: toMove :: cSpace :: itoa (p.move.tdiv 2 + 1))
+def formatTPS (p : Pos) : R Bytes :=
+  match ((List.range p.size).reverse).mapM (tpsRow p) with
+  | .error e => .error e
+  | .ok rows => .ok (tpsText rows p.move)
 
 end Tak.TPS
